@@ -375,6 +375,65 @@ func TestWaitFor(t *testing.T) {
 	})
 }
 
+// Add1Async(waitState, addState): adds addState and waits for the NEXT activation of waitState (which may be
+// active already). Returning true means that activation happened; it must not be satisfied by the wait
+// state merely ticking (being deactivated).
+func TestAddAsync(t *testing.T) {
+	st := ev.G()
+	st.SetRapid(40, 1500, 41)
+	rapid.Check(t, func(t *rapid.T) {
+		aRemovesW := rapid.Bool().Draw(t, "aRemovesW")
+		wActive := rapid.Bool().Draw(t, "wActive")
+		wMulti := rapid.Bool().Draw(t, "wMulti")
+		reAdd := rapid.Bool().Draw(t, "reAdd")
+		st.Journal(map[string]any{"kind": "addasync", "case": map[string]any{"aRemovesW": aRemovesW, "wActive": wActive, "wMulti": wMulti, "reAdd": reAdd}})
+		sch := am.Schema{"W": {Multi: wMulti}, "A": {}}
+		if aRemovesW {
+			sch["A"] = am.State{Remove: am.S{"W"}}
+		}
+		m := am.New(context.Background(), sch, &am.Opts{Id: fmt.Sprintf("c20aa%d", time.Now().UnixNano())})
+		defer m.Dispose()
+		if wActive {
+			m.Add1("W", nil)
+		}
+		tick0 := m.Tick("W")
+		ctx, cancel := context.WithTimeout(context.Background(), 150*time.Millisecond)
+		defer cancel()
+		res := make(chan bool, 1)
+		go func() { res <- amhelp.Add1Async(ctx, m, "W", "A") }()
+		if reAdd {
+			time.Sleep(20 * time.Millisecond)
+			m.Add1("W", nil)
+		}
+		var got bool
+		select {
+		case got = <-res:
+		case <-time.After(5 * time.Second):
+			ev.G().PinLast()
+			t.Fatalf("C20 violated: Add1Async(W, A) did not return within 5 s although its context ended after 150 ms")
+		}
+		// W was (re)activated after the call iff its tick moved to a NEW odd value
+		tick1 := m.Tick("W")
+		activated := am.IsActiveTick(tick1) && tick1 > tick0
+		if wMulti && wActive && tick1 > tick0 {
+			activated = am.IsActiveTick(tick1)
+		}
+		if got && !activated {
+			ev.G().PinLast()
+			t.Fatalf("C20 violated: Add1Async(wait W, add A) returned true but W was not activated after the call: W tick %d -> %d, machine %s (aRemovesW=%v wActive=%v wMulti=%v reAdd=%v)", tick0, tick1, m.StringAll(), aRemovesW, wActive, wMulti, reAdd)
+		}
+		if !got && activated && reAdd {
+			ev.G().PinLast()
+			t.Fatalf("C20 violated: Add1Async(wait W, add A) returned false although W was activated 20 ms after the call (tick %d -> %d, context 150 ms)", tick0, tick1)
+		}
+		st.Eval(1)
+		st.Class(fmt.Sprintf("addasync:returned=%v", got))
+		if wActive && aRemovesW {
+			st.NonTrivial(fmt.Sprint("addasync", aRemovesW, wActive, wMulti, reAdd))
+		}
+	})
+}
+
 func TestReplay(t *testing.T) {
 	p := os.Getenv("VERIF_REPLAY")
 	if p == "" {
